@@ -247,7 +247,10 @@ func runImm(s ImmScript, v *vt.V) {
 		mem = ocimem.New()
 		reg = ocifilter.Immutable(mem)
 	} else {
-		mem = ocimem.NewWithConfig(&ocimem.Config{ImmutableTags: true})
+		// the Config value is the caller's: it is used again for something else once the registry exists
+		cfg := ocimem.Config{ImmutableTags: true}
+		mem = ocimem.NewWithConfig(&cfg)
+		cfg.ImmutableTags = false
 		reg = mem
 	}
 	env := ops.NewEnv(u, reg)
@@ -410,5 +413,6 @@ func TestReplay(t *testing.T) {
 	vt.Register(propImm)
 	vt.Register(propConc)
 	vt.Register(propShadow)
+	vt.Register(propGraph)
 	vt.Replay(t)
 }
